@@ -910,3 +910,69 @@ Proof.
     + destruct (preferred _); [|congruence].
       destruct (version_known _); [|congruence]. destruct (compat_v _ _); congruence.
 Qed.
+
+(* ---------------- the result is used: names resolve, extra dimensions are found under their names ---------------- *)
+Lemma find_by_name eds e : NoDup (map ed_name eds) -> In e eds ->
+  find (fun x => String.eqb (ed_name x) (ed_name e)) eds = Some e.
+Proof.
+  induction eds as [|a r IH]; intros Hnd Hin; [destruct Hin|].
+  cbn [find]. destruct Hin as [->|Hin]; [now rewrite seqb_refl|].
+  destruct (String.eqb (ed_name a) (ed_name e)) eqn:E.
+  - apply String.eqb_eq in E. cbn [map] in Hnd. apply NoDup_cons_iff in Hnd as [Hn _]. exfalso. apply Hn.
+    rewrite E. now apply in_map.
+  - cbn [map] in Hnd. apply NoDup_cons_iff in Hnd as [_ Hnd]. now apply IH.
+Qed.
+
+Lemma find_name_some eds n : In n (map ed_name eds) -> find (fun x => String.eqb (ed_name x) n) eds <> None.
+Proof.
+  induction eds as [|a r IH]; intros Hin; [destruct Hin|]. cbn [find].
+  destruct (String.eqb (ed_name a) n) eqn:E; [discriminate|]. destruct Hin as [H|H]; [|now apply IH].
+  rewrite H, seqb_refl in E. discriminate.
+Qed.
+
+Theorem convert_resolve l tgt ver l' : convert l tgt ver = Ok l' -> wf_las l ->
+  listed_names l' = dim_names (l_fmt l') ++ map ed_name (l_edims l)
+  /\ (forall n, In n (listed_names l') -> resolve (l_fmt l') (l_edims l') n <> None)
+  /\ (forall n, In n (dim_names (l_fmt l')) -> resolve (l_fmt l') (l_edims l') n = Some RStd)
+  /\ (forall e, In e (l_edims l) -> ~ In (ed_name e) (dim_names (l_fmt l')) ->
+        resolve (l_fmt l') (l_edims l') (ed_name e) = Some (RExt e)).
+Proof.
+  intros H Hwf. pose proof (proj1 (convert_extra _ _ _ _ H Hwf)) as He. unfold listed_names, resolve. rewrite He.
+  split; [reflexivity|]. split; [|split].
+  - intros n Hin. destruct (mem n (dim_names (l_fmt l'))) eqn:M; [discriminate|].
+    apply in_app_or in Hin as [Hin|Hin]; [apply mem_In in Hin; congruence|].
+    pose proof (find_name_some _ _ Hin) as Hf. destruct (find _ _); [discriminate|congruence].
+  - intros n Hin. apply mem_In in Hin. now rewrite Hin.
+  - intros e Hin Hn. apply mem_false in Hn. rewrite Hn. rewrite (find_by_name _ _ (wf_names _ Hwf) Hin). reflexivity.
+Qed.
+
+Lemma ext_value_in eds src e : length src = length eds -> NoDup (map ed_name eds) -> In e eds ->
+  exists b, find (fun q : edim * list Z => String.eqb (ed_name (fst q)) (ed_name e)) (combine eds src) = Some (e, b).
+Proof.
+  revert src. induction eds as [|a r IH]; intros src Hl Hnd Hin; [destruct Hin|].
+  destruct src as [|s src]; [discriminate|]. cbn [combine find fst].
+  cbn [map] in Hnd. apply NoDup_cons_iff in Hnd as [Hn Hnd].
+  destruct Hin as [->|Hin]; [rewrite seqb_refl; now exists s|].
+  destruct (String.eqb (ed_name a) (ed_name e)) eqn:E.
+  - apply String.eqb_eq in E. exfalso. apply Hn. rewrite E. now apply in_map.
+  - apply IH; [cbn in Hl; lia|exact Hnd|exact Hin].
+Qed.
+
+Theorem convert_ext_value l tgt ver l' i da db : convert l tgt ver = Ok l' -> wf_las l -> (i < length (l_pts l))%nat ->
+  (forall n, ext_value (l_edims l') (nth i (l_pts l') db) n = ext_value (l_edims l) (nth i (l_pts l) da) n)
+  /\ (forall e, In e (l_edims l) -> exists b, ext_value (l_edims l') (nth i (l_pts l') db) (ed_name e) = Some (e, b)).
+Proof.
+  intros H Hwf Hi. destruct (convert_extra _ _ _ _ H Hwf) as [He Hb].
+  assert (forall n, ext_value (l_edims l') (nth i (l_pts l') db) n = ext_value (l_edims l) (nth i (l_pts l) da) n) as Heq.
+  { intros n. unfold ext_value. now rewrite He, (Hb i da db Hi). }
+  split; [exact Heq|]. intros e Hin. rewrite Heq. unfold ext_value.
+  destruct (wf_nth l i da Hwf Hi) as [_ Hl]. exact (ext_value_in _ _ _ Hl (wf_names _ Hwf) Hin).
+Qed.
+
+(* every record of the source other than the extra-bytes record is a record of the result, whatever it describes
+   (waveform packet descriptors when the target has no wave packets, georeferencing, lookups ...) *)
+Theorem convert_vlr_kept l tgt ver l' v : convert l tgt ver = Ok l' -> In v (l_vlrs l) -> fst v = false -> In v (l_vlrs l').
+Proof.
+  intros H Hin Hf. destruct (convert_vlrs _ _ _ _ H) as [E _]. rewrite E. apply in_or_app. left.
+  unfold user_vlrs. apply filter_In. split; [exact Hin|now rewrite Hf].
+Qed.
